@@ -9,7 +9,7 @@
    string bytes).  There is NO hypothesis on the signature or on the data
    beyond "data is a list of bytes" ([wf_bytes]: every element < 256) and
    "descriptors are atoms" ([fds_atomic]). *)
-From Tx Require Import Lib.Base Model.PyVal Model.Marshal Model.Message Model.MarshalCost Spec.WorkBounds Proofs.CostProofs.
+From Tx Require Import Lib.Base Model.PyVal Model.Marshal Model.Message Model.FdFraming Model.MarshalCost Spec.WorkBounds Proofs.CostProofs.
 Local Open Scope nat_scope.
 
 (* Erasing the counters gives exactly the model of unmarshal. *)
@@ -47,7 +47,8 @@ Theorem C05_output_bounded : forall sig data off le fds fuel n vs,
 Proof. exact (fun sig data off le fds fuel n vs => unmarshal_output data le fds fuel sig off n vs). Qed.
 
 (* parseMessage (header signature fixed "yyyyuua(yv)"; body signature at most
-   255 characters once the SIGNATURE header field is validated, repair D35).
+   255 characters once the SIGNATURE header field is validated, repair D35;
+   descriptor list cut to the UNIX_FDS count, repair D60).
    [parse_c] is parseMessage with counters; erasing them gives
    [parse_message_v2], which never runs out of fuel, and whose work and
    output are LINEAR in the length of the message, with explicit constants:
@@ -80,6 +81,18 @@ Theorem C05_parse_legacy_refuted :
     is_ok (parse_message false (msg_fuel raw) raw fds) = true /\
     parse_message_v2 raw fds = Err EMarshal.
 Proof. exact (ex_intro _ d30_raw (ex_intro _ (Some []) d30_legacy_accepts)). Qed.
+
+(* The UNIX_FDS header field (code 9) bounds the descriptor list handed to the
+   body decoder (repair D60, FdFraming.body_fds): oobFDs[:unix_fds].  Carried
+   with a non-integer type the slice raises (the message is rejected, in the
+   bounds above); a negative or huge integer follows Python slice semantics. *)
+Example C05_parse_hostile_unix_fds :
+  parse_message_v2 fds_str_msg (Some [PInt 7]) = Err EType /\
+  parse_message_v2 fds_neg_msg (Some [PInt 7; PInt 8]) =
+  Ok (2%N, 1%Z, true, true,
+      [(AReplySerial, PInt 7); (ASignature, PStr [104%N; 104%N]); (AUnixFds, PInt (-1))],
+      Some [PInt 7; PNone]).
+Proof. exact hostile_unix_fds. Qed.
 
 Example C05_parse_nonvacuous :
   wf_bytes ex_msg /\ fds_atomic (Some []) /\
